@@ -27,6 +27,12 @@ def obligations(tier):
                   bounds="text '&' + 3 arbitrary printable code points (entity-looking text: &a;b &#1; &lt;), three writers"))
     obs.append(ch("nested_spans", "harness.C07_dfxp", timeout=T, functions=("DFXPWriter._recreate_text/_recreate_span", "LegacyDFXPWriter._recreate_text/_recreate_span"), exhaustive=True,
                   bounds="all balanced sequences of 6 nodes over TEXT / START italics / START colour / END with nesting depth <= 2, three writers: span markup balanced, no span left open"))
+    obs.append(ch("inline_positioning", "harness.C07_dfxp", timeout=T, functions=("DFXPWriter(write_inline_positioning=True).write", "_recreate_span", "_recreate_p_tag", "SinglePositioningDFXPWriter.write"), exhaustive=True,
+                  bounds="a positioned span with style italics / text-align / text-align+italics / colour x 3 layouts x DFXP and single-position writers x caption-level style and layout: every start tag well-formed (no attribute twice)"))
+    obs.append(ch("style_names", "harness.C07_dfxp", timeout=T, functions=("DFXPWriter.write", "_recreate_styling_tag", "RegionCreator._get_new_id"), exhaustive=True,
+                  bounds="document style called p / default / r / bottom0 x three writers: ids unique across styles and regions, references resolve"))
+    obs.append(ch("style_named_like_region", "harness.C07_dfxp", timeout=T, functions=("DFXPWriter.write", "RegionCreator._get_new_id", "create_document_regions"), known="C07-style-id-equals-region-id",
+                  bounds="document style called bottom / r0 / r1"))
     obs.append(ch("id_lang_value", "harness.C07_dfxp", timeout=T, functions=("DFXPWriter.write", "_recreate_styling_tag", "_recreate_p_tag", "LegacyDFXPWriter.write"),
                   bounds="class names (document style ids) and language codes 'k' + 1-2 characters over {\" ' > a ; space}: attribute content well-formed, style reference resolves, language code kept ('&' and '<' excluded: known finding)"))
     obs.append(ch("id_lang_amp_lt", "harness.C07_dfxp", timeout=T, functions=("DFXPWriter.write", "LegacyDFXPWriter.write"), known="C07-id-lang-unescaped",
